@@ -337,9 +337,12 @@ capped:
  * LS_IMPL_MEM is defined) of the touched instance are compared with the reference, which keeps two separate
  * instances: any state shared between the implementation's instances shows up as a mismatch. */
 typedef struct ls_op2 { int func; uint64_t args[4]; int inst; } ls_op2;
+#ifdef LS_NEWCHILD
+mInstance* mNewChild(mInstance* self);
+#endif
 static void (*ls_env_reset)(void); /* re-creates embedder-provided objects (imported memory/table/global) on both sides */
 static int ls_main_seq2(int argc, char **argv, const ls_func *funcs, int nfuncs, const ls_op2 *ops, int nops, int maxlen) {
-    static mInstance instB; wr_instance *refA = NULL, *refB = NULL; uint32_t *ridx; int k; unsigned long long nseq = 0, steps = 0; unsigned secs = 1200;
+    static mInstance instB; mInstance *pB = &instB; wr_instance *refA = NULL, *refB = NULL; uint32_t *ridx; int k; unsigned long long nseq = 0, steps = 0; unsigned secs = 1200;
     int idx[LS_MAXDEPTH]; int len;
     if (argc < 2) { printf("ERROR usage\n"); return 2; }
     if (argc >= 3) maxlen = atoi(argv[2]);
@@ -358,12 +361,12 @@ static int ls_main_seq2(int argc, char **argv, const ls_func *funcs, int nfuncs,
         while (!done) {
             int j, haveB = 0, pruned = 0; unsigned long long mm = ls_mismatches;
             /* static pruning: B used before it exists, or instantiated twice */
-            for (j = 0; j < len; j++) { const ls_op2 *o = &ops[idx[j]]; if (o->inst == 2) { if (haveB) pruned = 1; haveB = 1; } else if (o->inst == 1 && !haveB) pruned = 1; }
+            for (j = 0; j < len; j++) { const ls_op2 *o = &ops[idx[j]]; if (o->inst >= 2) { if (haveB) pruned = 1; haveB = 1; } else if (o->inst == 1 && !haveB) pruned = 1; }
             if (!pruned) {
                 wr_env e; if (ls_user_env) e = *ls_user_env; else memset(&e, 0, sizeof e);
                 if (!e.host_call) e.host_call = ls_host_ref; if (!e.fuel) e.fuel = 200000; if (!e.page_cap) e.page_cap = 65535;
                 wr_free_instance(refA); mFreeInstance(&ls_inst);
-                if (refB) { wr_free_instance(refB); refB = NULL; mFreeInstance(&instB); }
+                if (refB) { wr_free_instance(refB); refB = NULL; mFreeInstance(pB); if (pB != &instB) { free(pB); pB = &instB; } }
                 if (ls_env_reset) ls_env_reset();
                 ls_tr_ref.n = 0; refA = wr_instantiate(ls_mod, &e);
                 memset(&ls_inst, 0, sizeof ls_inst); ls_cur_inst = &ls_inst; ls_tr_impl.n = 0;
@@ -374,12 +377,24 @@ static int ls_main_seq2(int argc, char **argv, const ls_func *funcs, int nfuncs,
                     const ls_op2 *o = &ops[idx[j]];
                     if (o->inst == 2) {
                         ls_tr_ref.n = 0; refB = wr_instantiate(ls_mod, &e);
-                        memset(&instB, 0, sizeof instB); ls_cur_inst = &instB; ls_tr_impl.n = 0;
+                        memset(&instB, 0, sizeof instB); pB = &instB; ls_cur_inst = &instB; ls_tr_impl.n = 0;
                         ls_in_impl = 1; if (setjmp(ls_jb) == 0) mInstantiate(&instB, ls_user_resolve ? ls_user_resolve : ls_resolve_default); ls_in_impl = 0;
                         ls_ref = refB; ls_compare_init_traces("instantiate-B"); haveB = 1; steps++;
                         continue;
                     }
-                    ls_cur_inst = o->inst ? &instB : &ls_inst; ls_ref = o->inst ? refB : refA;
+#ifdef LS_NEWCHILD
+                    if (o->inst == 3) {
+                        /* B = <module>NewChild(A): used for modules without start, tables and shared memories, where a child is
+                           specified to be a fresh instance of its own (the reference simply instantiates a second instance) */
+                        ls_tr_ref.n = 0; refB = wr_instantiate(ls_mod, &e);
+                        ls_cur_inst = &ls_inst; ls_tr_impl.n = 0;
+                        ls_in_impl = 1; if (setjmp(ls_jb) == 0) pB = mNewChild(&ls_inst); ls_in_impl = 0;
+                        if (!pB) { pB = &instB; printf("ERROR NewChild returned NULL\n"); return 2; }
+                        ls_cur_inst = pB; ls_ref = refB; ls_compare_init_traces("newchild-B"); haveB = 1; steps++;
+                        continue;
+                    }
+#endif
+                    ls_cur_inst = o->inst ? pB : &ls_inst; ls_ref = o->inst ? refB : refA;
                     ls_step(&funcs[o->func], o->func, ridx[o->func], o->args); steps++;
                 }
                 if (ls_mismatches != mm && ls_mismatches <= (unsigned long long)ls_max_report) { printf("HISTORY"); for (j = 0; j < len; j++) printf(" %d", idx[j]); printf("\n"); }
